@@ -210,6 +210,50 @@ for lang in (["fr", "zh", "hi"] if tier == "quick" else ["fr", "zh", "hi", "de",
              f"{ {k: (str(got.get(k))[:100], str(want.get(k))[:100]) for k in diff[:2]} }",
              {"lang_code": lang, "pages": diff[:3]}, "process-history-dependent")
     distinct.add(("lang", lang))
+# a context with its own tag table keeps rendering as a fresh context with the same options does, whatever other
+# contexts are created (and used) in between; rendering = parse, then node_to_wikitext / node_to_html / node_to_text
+EXT = {"phonos": {"parents": ["phrasing"], "content": []}, "foo": {"parents": ["phrasing", "flow"], "content": ["phrasing"]}}
+EXT_PAGES = ["a <phonos file=x.ogg /> b", "<foo>in</foo> <foo a=1/>", "{|\n| <phonos f=y/> c\n|}", "<br> <phonos/> <hr/>"]
+
+
+def render_all(c):
+    out = []
+    for ep in EXT_PAGES:
+        c.start_page("Ext")
+        with quiet_stdout():
+            root = c.parse(ep)
+            out.append((tree(root), c.node_to_wikitext(root), c.node_to_html(root), c.node_to_text(root)))
+    return out
+
+
+for between in ("plain-context", "other-extension-tags", "nothing"):
+    evaluations += 1
+    with quiet_stdout():
+        c1 = Wtp(db_path=DB, quiet=True, extension_tags=EXT)
+    first = render_all(c1)
+    with quiet_stdout():
+        if between == "plain-context":
+            c2 = Wtp(db_path=DB, quiet=True)
+        elif between == "other-extension-tags":
+            c2 = Wtp(db_path=DB, quiet=True, extension_tags={"bar": {"parents": ["phrasing"], "content": ["phrasing"]}})
+        else:
+            c2 = None
+    if c2 is not None:
+        render_all(c2)
+    again = render_all(c1)
+    with quiet_stdout():
+        c3 = Wtp(db_path=DB, quiet=True, extension_tags=EXT)
+    fresh_r = render_all(c3)
+    for c_ in (c1, c2, c3):
+        if c_ is not None:
+            c_.db_conn.close()
+    if first != fresh_r or again != fresh_r:
+        k = next(i for i in range(len(EXT_PAGES)) if first[i] != fresh_r[i] or again[i] != fresh_r[i])
+        fail("c09:page-result-equals-fresh-context",
+             f"context with extension tags, page {EXT_PAGES[k]!r}: first {first[k][1:3]}, after creating {between} {again[k][1:3]}, "
+             f"fresh same-options context {fresh_r[k][1:3]}",
+             {"page": EXT_PAGES[k], "context_created_in_between": between}, "history-dependent")
+    distinct.add(("ext-context", between))
 samples.append({"history": [PAGES[0], PAGES[3], PAGES[4]]})
 import shutil
 shutil.rmtree(TMP, ignore_errors=True)
